@@ -89,6 +89,9 @@ func (h *SignalHandler) Add(svcs ...Interface) {
 //
 // Handle must not be called concurrently with [Add].
 func (h *SignalHandler) Handle(ctx context.Context) (status osutil.ExitCode) {
+	// Make sure that a recovered panic doesn't result in a successful status.
+	status = osutil.ExitCodeFailure
+
 	defer slogutil.RecoverAndLog(ctx, h.logger)
 
 	for sig := range h.signal {
